@@ -92,6 +92,9 @@ impl Mon {
         if matches!(info.kind, Kind::StartFlashloan) {
             self.c11_start(v, info);
         }
+        if info.kind == Kind::Withdraw && self.r.is("C09") {
+            self.c09_seizure_price(w, v, info);
+        }
         if matches!(info.kind, Kind::StartLiquidation | Kind::StartDeleverage | Kind::EndLiquidation | Kind::EndDeleverage) {
             self.c10_ix(w, v, info);
         }
@@ -636,6 +639,47 @@ impl Mon {
     }
 
     // ------------------------------------------------------------------ C10 (per instruction part)
+    /// Collateral leaving an account that is in receivership is being seized: the price of the bank
+    /// it leaves must be a usable, strictly positive one (C09: a zero or negative price can never be
+    /// used to seize collateral).
+    fn c09_seizure_price(&mut self, w: &World, v: &IxView, info: &IxInfo) {
+        let _ = w;
+        let (ak, ap) = match info.accts.first() {
+            Some((k, Some(p), _)) => (k, p),
+            _ => return,
+        };
+        if ap.account_flags & ACCOUNT_IN_RECEIVERSHIP == 0 {
+            return;
+        }
+        let bk = match v.ev.pre.get(3) {
+            Some(s) => s.key,
+            None => return,
+        };
+        let bq = match info.banks.iter().find(|(k, _, _)| *k == bk) {
+            Some((_, _, Some(q))) => q,
+            _ => return,
+        };
+        let mut ors = vec![];
+        for k in oracle_keys(bq) {
+            match v.ev.pre_of(&k) {
+                Some(s) => ors.push(refm::OracleIn { key: k, owner: s.owner, data: &s.data[..] }),
+                None => ors.push(refm::OracleIn { key: k, owner: Pubkey::default(), data: &[] }),
+            }
+        }
+        self.r.eval();
+        self.r.count("C09.receivership_withdrawals_priced");
+        match refm::ref_price(bq, &ors, info.now) {
+            Ok(px) => {
+                if !px.low(false).v.is_positive() {
+                    self.r.violate("C09", "C09/Withdraw/collateral-seized-at-zero-or-negative-price", format!("account {} bank {}: low-biased price {}", ak, bk, show(&px.low(false).v)));
+                }
+            }
+            Err(e) => {
+                self.r.violate("C09", "C09/Withdraw/collateral-seized-with-unusable-price", format!("account {} bank {}: {:?}", ak, bk, e));
+            }
+        }
+    }
+
     fn c10_ix(&mut self, w: &World, v: &IxView, info: &IxInfo) {
         let (ak, ap, aq) = match info.accts.first() {
             Some((k, Some(p), Some(q))) => (k, p, q),
